@@ -185,6 +185,10 @@ def L(cid: int):  # noqa: N802
         # (the names are used in expressions too: only then they enter the analyser's package-wide alias table)
         {"classes": {"SameBase": {"superclasses": []}, "SameMid": {"superclasses": ["@MODQ@.SameBase"]}, f"DS{u}": {"superclasses": ["@MODQ@.SameMid"]}}, "dontcare_prefixes": [f"mk{u}"]},
     )
+    letters["bases_subscripted"] = (
+        f"class GB{u}(Generic[T]):\n    pass\n\n\nclass DG{u}(GB{u}[int]):\n    pass\n\n\nclass DH{u}(SupBase, GB{u}[str]):\n    pass\n",
+        {"classes": {f"GB{u}": {"superclasses": []}, f"DG{u}": {"superclasses": [f"@MODQ@.GB{u}"]}, f"DH{u}": {"superclasses": ["vpkg.support.SupBase", f"@MODQ@.GB{u}"]}}},
+    )
     letters["bases_imported"] = (
         f"class D{u}(SupBase):\n    pass\n\n\nclass E{u}(AliasedBase, support.SupOther):\n    pass\n\n\nclass F{u}(collections.OrderedDict):\n    pass\n",
         {"classes": {f"D{u}": {"superclasses": ["vpkg.support.SupBase"]}, f"E{u}": {"superclasses": ["vpkg.support.SupBase2", "vpkg.support.SupOther"]}, f"F{u}": {"superclasses": ["collections.OrderedDict"]}}},
